@@ -126,3 +126,23 @@ void h_cmp_callbacks(void) {
   __CPROVER_assert(janet_int64_hash(&x, 8) == janet_int64_hash(&x2, 8), "C03/C14 equal boxes hash equal");
   REACH("callbacks return");
 }
+
+/* ---- shifts (methods << >> of int/s64 and int/u64), shift distance 0..63 (a distance >= 64 or < 0 is undefined in C: an
+ *      observation recorded in DESIGN, outside this contract). Spec written without signed shifts:
+ *      lshift: low 64 bits of a * 2^k; u64 rshift: logical; s64 rshift: ARITHMETIC (floor(a / 2^k), the sign is kept) - the same
+ *      result brshift gives for ordinary numbers. ---- */
+#define SHIFT_SETUP SETUP(2) __CPROVER_assume(b >= 0 && b <= 63); unsigned k = (unsigned) b;
+void h_s64_rshift(void) { SHIFT_SETUP cfun_it_s64_rshift(2, argv);
+  uint64_t want = a >= 0 ? (ua >> k) : ~((~ua) >> k);
+  __CPROVER_assert((uint64_t) g_box == want, "C14 s64 >>: arithmetic shift, floor(a / 2^k), sign kept");
+  __CPROVER_assert((g_box < 0) == (a < 0), "C14 s64 >>: the sign of the operand is kept");
+  REACH("s64 rshift returns"); }
+void h_u64_rshift(void) { SHIFT_SETUP cfun_it_u64_rshift(2, argv);
+  __CPROVER_assert((uint64_t) g_box == (ua >> k), "C14 u64 >>: logical shift");
+  REACH("u64 rshift returns"); }
+void h_s64_lshift(void) { SHIFT_SETUP cfun_it_s64_lshift(2, argv);
+  __CPROVER_assert((uint64_t) g_box == (ua << k), "C14 s64 <<: low 64 bits of a * 2^k");
+  REACH("s64 lshift returns"); }
+void h_u64_lshift(void) { SHIFT_SETUP cfun_it_u64_lshift(2, argv);
+  __CPROVER_assert((uint64_t) g_box == (ua << k), "C14 u64 <<: low 64 bits of a * 2^k");
+  REACH("u64 lshift returns"); }
